@@ -153,6 +153,8 @@ TypesViol(r) ==
 (******************************** table `ints` *****************************)
 (* r[1] kind, r[2] build configuration (0 = std, 1 = without std), r[3] T    *)
 Both(clause) == {<<"C04", clause>>, <<"C05", clause>>}
+\* every string of 1 to 3 characters over '+' and the ASCII digits (a superset of the numerals that short)
+NumeralCands == UNION {[1..n -> {43} \cup (48..57)] : n \in 1..3}
 IntsViol(r) ==
     LET T == r[3] IN
     CASE r[1] \in {0, 2} ->          \* TryFrom: [kind,cfg,T,S,cls,v,ok,res,al]
@@ -202,12 +204,21 @@ IntsViol(r) ==
            \* (`new_unchecked` is unsafe API: outside C04's "safe public API"; value fidelity is growth)
            (IF r[5] = r[4] THEN {} ELSE {<<"GROWTH", "new_unchecked-value">>})
            \cup (IF r[6] = 0 /\ r[5] # -2 THEN {} ELSE {<<"C18", "ints">>})
+      [] r[1] = 12 ->                \* census of a small string space: [12,cfg,T,space,accepted,total]
+           \* every accepted string of the space is judged by its own parse row; here only the COUNT: together
+           \* they say that exactly the in-range numerals of the space are accepted (C04: parsing fails exactly
+           \* for out-of-range input; C05: exactly the unsigned decimal numerals in range parse)
+           LET expected == IF r[4] \in {0, 1} THEN MaxOf(T) + 1
+                           ELSE Cardinality({cs \in NumeralCands : ParseOk(T, cs)}) IN
+           (IF r[5] = expected THEN {} ELSE Both("parse-census"))
       [] r[1] = 11 ->                \* formatting with flags / width / Debug: [11,cfg,T,v,spec,al,n,c1..cn]
            \* C18: "formatting of the integer types" neither allocates nor panics, whatever the format spec
            (IF r[6] = 0 THEN {} ELSE {<<"C18", "ints-format">>})
 
 (****************************** table `factory` ****************************)
 (* r = [ctor, impl, a1, a2, a3, a4, pan, al, result...]; shorthand ctor = 30 + named ctor *)
+(* impl: 0 / 1 = RawShortMessage / StructuredShortMessage with the constructor spelled on the concrete type *)
+(* (`RawShortMessage::note_on(..)`), 2 / 3 = the same through a generic `F: ShortMessageFactory`            *)
 NamedBytes(c, a) ==
     CASE c = 0 -> <<144 + a[1], a[2], a[3]>>
       [] c = 1 -> <<128 + a[1], a[2], a[3]>>
@@ -254,7 +265,7 @@ FactoryViol(r) ==
                    [] c >= 30 /\ c <= 48 -> NamedBytes(c - 30, a)
                    [] c = 49 -> <<a[1], a[2], a[3]>>
                    [] OTHER -> <<0, 0, 0>>
-        eb == IF imp = 1 THEN Canon(bytes[1], bytes[2], bytes[3]) ELSE bytes
+        eb == IF imp \in {1, 3} THEN Canon(bytes[1], bytes[2], bytes[3]) ELSE bytes
     IN (IF pan = B2I(wantPan) THEN {}
         ELSE {<<"C06", IF wantPan THEN "missing-documented-panic" ELSE "unexpected-panic">>}
              \cup (IF ~wantPan THEN {<<"C18", "panic-on-valid-input">>} ELSE {}))
